@@ -63,6 +63,14 @@ func (e *engine) want(spec int, op string) string {
 
 // step returns "" or a deviation.
 func (e *engine) step(i int, s Step) string {
+	switch {
+	case len(s.Action) > 13 && s.Action[:13] == "stream-after-":
+		sp := e.c.Pool[s.Spec]
+		if got, fresh := hist.Stream(hist.Build(sp), s.Action[13:]), hist.Stream(hist.Build(sp), ""); got != fresh {
+			return fmt.Sprintf("document spec %d: the events read after the first %s differ from those of a fresh document:\n  %s\nfresh:\n  %s", s.Spec, s.Action[13:], trunc(got), trunc(fresh))
+		}
+		return ""
+	}
 	switch s.Action {
 	case "create":
 		e.objs[s.Spec] = append(e.objs[s.Spec], hist.Build(e.c.Pool[s.Spec]))
@@ -161,6 +169,21 @@ func TestHistories(t *testing.T) {
 			if d := e.step(i, s); d != "" {
 				run.Fail(t, chk, *c, "%s", d)
 			}
+		}
+		// a document read from its start gives the same events whether it is fresh or has just been
+		// measured / checked for the first time (both leave it at its start)
+		for si, sp := range c.Pool {
+			if sp.Kind != "json" {
+				continue
+			}
+			fresh := hist.Stream(hist.Build(sp), "")
+			for _, first := range []string{"Check", "Len"} {
+				if got := hist.Stream(hist.Build(sp), first); got != fresh {
+					run.Fail(t, chk, Case{Pool: c.Pool, Steps: []Step{{Action: "stream-after-" + first, Spec: si}}},
+						"document spec %d: the events read after the first %s differ from those of a fresh document:\n  %s\nfresh:\n  %s", si, first, trunc(got), trunc(fresh))
+				}
+			}
+			run.Label("json:stream-fresh-vs-after-first-call")
 		}
 		run.Eval(chk, repeats > 0 && interleaved, fmt.Sprint(c.Steps), fmt.Sprint(len(c.Pool)))
 		run.LabelN("steps", int64(steps))
